@@ -15,7 +15,8 @@ RULE = ("A case is (authentic V2 response packet for a frame of length L in {0,1
         "copy in the same instant (then no more frames may be returned than authentic packets were delivered); "
         "'multi' and 'random_packets' are seeded. A run that does not come back within its real-time budget is a "
         "liveness violation. Distinct = distinct (packet, "
-        "corruption); non-trivial = the corruption actually changed the delivered bytes.")
+        "corruption); non-trivial = the corruption actually changed the delivered bytes."
+        " Later additions: altered reply to a retransmission; the altered packet queued ahead of / behind an authentic copy; an authentic packet abandoned unread before a reconnect; histories of 2-3 earlier altered replies (header / signature only) with well-formed carried frames; an authentic packet already queued when the request is sent; part 'flip_all_carried_in_v3' = the same V2 packets inside genuine V3 envelopes, also with the 12 h key lifetime ending while the reply is in flight.")
 ASSUMPTIONS = [
     "corruption is applied to the device->client packet in transit (after signing)",
     "V2 delivery is packet-aligned (one packet per TCP segment)",
